@@ -125,6 +125,12 @@ func isoCorpus(e *ev.Env) {
 			{Kind: "sendfile", Raw: rawReq(reqSpec{Target: "/file/0?f=a"})}},
 			Intruders: []wreq{{Kind: "sendfile-missing", Raw: rawReq(reqSpec{Target: "/file/0?f=x"})}},
 			Probe:     probeSpec{Route: -1, Class: ckNone, Variant: "sendfile", Raw: rawReq(reqSpec{Target: "/file/0?probe=1&f=a&hold=1"})}}},
+		{"viewbind-then-render-on-mounted-engine", isoCase{Cfg: isoCfg{Mount: true, ViewsOn: 1}, History: []wreq{
+			{Kind: "locals", Raw: rawReq(reqSpec{Target: "/locals/alice"})}},
+			Probe: probeSpec{Route: 6, Class: ckNone, Raw: rawReq(reqSpec{Target: "/admin/probeplain"})}}},
+		{"viewbind-then-render-without-engine", isoCase{Cfg: isoCfg{ViewsOn: 2}, History: []wreq{
+			{Kind: "locals", Raw: rawReq(reqSpec{Target: "/locals/alice"})}},
+			Probe: probeWith("/probeplain", ckNone, nil)}},
 		{"server-error-path-then-probe", isoCase{History: []wreq{
 			{Kind: "locals", Cookie: ckValid, Raw: rawReq(reqSpec{Target: "/locals/h0", Cookie: one})},
 			{Kind: "malformed", Kills: true, Raw: []byte("GET\r\n\r\n")}},
